@@ -260,6 +260,13 @@ func RunC09(env *Env, rep *Report) {
 			}
 		}
 	}
+	// type prefixes that differ from ascii / braille only in letter case are
+	// other types: no terminator, the directive as spelled
+	for _, origin := range []string{"text", "inline"} {
+		for _, typ := range []string{"ASCII", "Ascii", "Braille", "BRAILLE"} {
+			cases = append(cases, c09Case(origin, typ, 1, ""), c09Case(origin, typ, 2, ""))
+		}
+	}
 	cases = append(cases, c09TwoArgsCase("ascii", ""), c09TwoArgsCase("", "braille"), c09TwoArgsCase("custom", ""), c09TwoArgsCase("braille", "ascii"))
 	for _, first := range []bool{true, false} {
 		cases = append(cases, c09StatementAndInlineCase("braille", "", first), c09StatementAndInlineCase("", "braille", first), c09StatementAndInlineCase("", "", first), c09StatementAndInlineCase("ascii", "", first))
